@@ -10,7 +10,7 @@ P = {
  "C01": ("proptest generation + exhaustive sweeps (word x position, all 2048 final words for every count 0..40) against a bit-string BIP-39 reference, through from_phrase, FromStr and a CLI sample (--mnemonic=/MNEMONIC); libFuzzer in thorough",
          "Exploration: accept <=> reference-valid on ~0.5M phrases per quick run incl. the exhaustive word x position table and full final-word sweeps for every word count; canonical print/length/re-parse for every accepted phrase. Held on everything generated; the sweeps named exhaustive are complete.",
          "Trusts sha2 and the pinned copy of the English word list (sha256 checked); non-ASCII white space is unspecified and only checked for no panic; letter-case variants of list words are judged as unknown words (the list is lower case; 'the same words' and parse/print inversion exclude folding)."),
- "C10": ("exhaustive length sweep 0..1100 + powers of ten +-1 + proptest byte strings against an EIP-191 reference (sha3 Keccak, own decimal loop)",
+ "C10": ("exhaustive length sweep 0..1100 + powers of ten +-1 + proptest byte strings against an EIP-191 reference (sha3 Keccak, own decimal loop); histories of related messages; CLI sample",
          "Exploration: digest equals the reference for every length 0..1100, all first-byte values, 10^k-1..10^k+1 up to 10^5 (10^7 thorough) and random/non-UTF-8 contents, through all three carriers.",
          "Trusts sha3::Keccak256."),
  "C02": ("proptest over mnemonics x Unicode passphrase classes against a written-out PBKDF2 reference; hand-written NFKD pair table (788 pairs, independent of unicode-normalization), layout metamorphism, call histories on one thread (independence from earlier computations) and a CLI sample",
@@ -22,16 +22,16 @@ P = {
  "C04": ("proptest + enumerated boundary scalars and all input lengths 0..64 against independent secp256k1/Keccak/EIP-55",
          "Exploration: public key, address bytes and EIP-55 text equal the reference for boundary and random scalars; out-of-range 32-byte secrets refused; other lengths refused or taken as the same integer.",
          "Reference secp256k1 cross-checked against k256; sha3 Keccak."),
- "C05": ("proptest over (key, digest) with range, independent verify/recover, purity, and RFC 6979 reference equality for digests < n",
+ "C05": ("proptest over (key, digest) with range, independent verify/recover, purity, and RFC 6979 reference equality for digests < n; histories of related requests on one thread",
          "Exploration: every generated signature is in range, low-s, verifies and recovers to the signer under an independent implementation, is reproducible, and equals the RFC 6979 reference (HMAC-SHA256 DRBG written from the RFC) for digests below n.",
          "RFC 6979 reference checked against the RFC's A.2.5 nonce vector and the repository's pinned signature."),
- "C06": ("proptest over transaction records x keys against a reference transaction model, strict canonical RLP decode and sender recovery",
+ "C06": ("proptest over transaction records x keys against a reference transaction model, strict canonical RLP decode and sender recovery; lenient document shapes; near-copy histories on one thread",
          "Exploration: kind rule, signing digest and signed bytes equal the reference for every generated record; strict decoder returns every field unchanged; v/yParity formula; recovered sender equals the signer.",
          "Legacy chain ids are capped at c_max here (C11 covers the rest)."),
  "C07": ("exhaustive calldata-length / integer-width / list-size sweeps through the public API with a strict canonical RLP decoder; hook sweep of the length-header function over every length below 2^21 (2^26 thorough)",
          "Exploration with exhaustive parts: every calldata length 0..1100, every single byte, every integer width 0..32 in every field, access-list payloads around each boundary decode strictly to the original; header function equals the reference for every length in the swept range.",
          "Strict decoder is the canonicity oracle (unit-tested in the harness)."),
- "C08": ("tape-decoded generation of type graphs + conforming values against an AST-based EIP-712 reference; hook: encodeType string equality and exhaustive member-type grammar sweep; the same documents through the executable (hash/sign typeddata)",
+ "C08": ("tape-decoded generation of type graphs + conforming values against an AST-based EIP-712 reference; hook: encodeType string equality and exhaustive member-type grammar sweep; the same documents through the executable (hash/sign typeddata); histories of related documents on one thread",
          "Exploration: domain separator, message hash and digest equal the reference on every generated document (shared/repeated/diamond/recursive dependencies, 3-dimensional arrays, all 100 atoms); encodeType strings equal; 15600-string grammar sweep is the identity.",
          "ASCII identifiers only; sha3 Keccak."),
  "C09": ("mutation of well-typed documents at a generated tree position + exhaustive width x boundary x spelling grid + acceptance controls + CLI sample",
